@@ -1072,6 +1072,91 @@ pub fn run(tier: &str) -> i32 {
     add(&c2);
   }
 
+  // ----- stage 5b: histories ------------------------------------------------------------
+  // The one-step relation starts from freshly constructed states; state the implementation
+  // keeps for itself (a "just reloaded" flag, a remembered edge) is only reachable through
+  // histories.  Every sequence of 3 (thorough 4) actions over a 17-letter alphabet from 128
+  // states, every field judged after every action.  A DIV write has two admissible outcomes
+  // (with / without the induced edge, section 7): the reference follows the one the subject took.
+  {
+    let alphabet: Vec<Act> = vec![
+      Act::Elapse(4), Act::Elapse(12), Act::Elapse(16), Act::Elapse(64), Act::Elapse(256), Act::Elapse(1024),
+      Act::Tima(0x00), Act::Tima(0xA5), Act::Tima(0xFF), Act::Tma(0x00), Act::Tma(0xFE),
+      Act::Tac(0), Act::Tac(4), Act::Tac(5), Act::Tac(6), Act::Tac(7), Act::Div,
+    ];
+    let depth: u32 = if thorough { 4 } else { 3 };
+    let na = alphabet.len() as u64;
+    let nseq = na.pow(depth);
+    let phases: [u32; 8] = [0, 4, 12, 252, 1020, 4092, 0x7FFC, 0xFFFC];
+    let n_states = (phases.len() * 8 * 2) as u64;
+    let opts = PoolOpts { chunk: 1, bitmap_bits: 1 << 14, samples_per_child: 1, ..PoolOpts::default() };
+    let r = run_pool(
+      n_states,
+      &opts,
+      |_| (),
+      |_, case, ctx| {
+        let phase = phases[(case % 8) as usize];
+        let tac = ((case / 8) % 8) as u8;
+        let tima: u8 = if (case / 64) % 2 == 0 { 0xFE } else { 0xFF };
+        let tma: u8 = 0x7F;
+        ctx.sample(|| J::obj().set("stage", J::s("histories")).set("phase", J::u(phase as u64)).set("tac", J::u(tac as u64)).set("tima", J::u(tima as u64)).set("sequences", J::u(nseq)));
+        let mut hook_hi = 0u64;
+        for h in 0..nseq {
+          let mut x = h;
+          let mut acts = [0usize; 4];
+          for k in (0..depth as usize).rev() {
+            acts[k] = (x % na) as usize;
+            x /= na;
+          }
+          let (mut t, _) = build_timer(phase, Some(tac), tima, tma);
+          let mut r = R5::new(phase, tac, tima, tma);
+          for k in 0..depth as usize {
+            let act = alphabet[acts[k]];
+            let f = act.on_timer(&mut t);
+            let got = obs_timer(&t, f, &mut hook_hi);
+            let want = match act {
+              Act::Tac(v) => { let i = r.write_tac(v); r.obs(i) },
+              Act::Tima(v) => { r.tima = v; r.obs(false) },
+              Act::Tma(v) => { r.tma = v; r.obs(false) },
+              Act::Elapse(d) => { let i = r.elapse(d); r.obs(i) },
+              Act::Div => {
+                let mut a = r;
+                a.write_div_plain();
+                let mut b = r;
+                let ib = b.write_div_edge();
+                if diff(&b.obs(ib), &got) == 0 { r = b; b.obs(ib) } else { r = a; a.obs(false) }
+              },
+            };
+            ctx.count(C_TRANS, 1);
+            if let Act::Elapse(d) = act {
+              ctx.count(C_IMPL_CLOCKS, d as u64);
+              ctx.count(C_REF_CLOCKS, d as u64);
+            }
+            let m = diff(&want, &got);
+            if m != 0 {
+              let name = FIELDS.iter().find(|(bit, _)| m & bit != 0).map(|(_, n)| *n).unwrap_or("?");
+              ctx.violation(&format!("C13 tac={} history action={} field={} step={}", tac_label(tac as usize), act.kind(), name, k + 1), || {
+                J::obj()
+                  .set("case", J::obj().set("via", J::s("timer")).set("phase", J::u(phase as u64)).set("tac", J::u(tac as u64)).set("tima", J::u(tima as u64)).set("tma", J::u(tma as u64)).set("history", J::Arr(acts[..depth as usize].iter().map(|a| J::s(alphabet[*a].desc())).collect())).set("failing_step", J::u(k as u64 + 1)))
+                  .set("expected", want.json())
+                  .set("observed", got.json())
+              });
+              break;
+            }
+          }
+          ctx.count(C_TRACES, 1);
+        }
+        ctx.class(0x80000 | case);
+      },
+      |case, how| (format!("C13 history crash={}", how), J::obj().set("case", J::u(case))),
+    );
+    let c = rep.add_stage("histories", &format!("8 phases x TAC 0..7 x TIMA {{FE,FF}} x all {} sequences of {} actions over 17 letters (6 elapses, 3 TIMA writes, 2 TMA writes, 5 TAC writes, DIV write), every field judged after every action", nseq, depth), r);
+    let mut c2 = c;
+    c2[C_STATES] = 0;
+    c2[C_NEW_STATES] = 0;
+    add(&c2);
+  }
+
   // ----- stage 6: the timer inside the machine -------------------------------------------
   // DIV/TIMA/IF as the guest sees them through the bus while the other devices are busy: time
   // delivered by MemoryAreas::run_clock_cycles (what the CPU's accounting calls), with an OAM
